@@ -164,6 +164,34 @@ theorem Spec.trace_sublist : ∀ (ops : List (Op α)) (s : Spec α),
 
 /-! ### backend level -/
 
+theorem applyAction_frame (p : Params) (bt lg : Nat) (a : Action) (w : Write) (s : BSt) (lg' : Nat) (h : lg' ≠ lg)
+    (hw : w.lg = lg) :
+    (applyAction p bt lg a w s).1.ring lg' = s.ring lg' ∧ (applyAction p bt lg a w s).1.flushLvl = s.flushLvl ∧
+    ∀ x ∈ (applyAction p bt lg a w s).2.writes, x.lg = lg := by
+  simp only [applyAction]
+  cases s.ring lg with
+  | none =>
+    refine ⟨rfl, rfl, ?_⟩
+    intro x hx
+    by_cases ha : a.write = true <;> simp [ha] at hx
+    rw [hx]; exact hw
+  | some r =>
+    by_cases hf : a.flush = true
+    · simp only [hf, if_true, upd, h, if_false]
+      refine ⟨trivial, trivial, ?_⟩
+      intro x hx
+      by_cases ha : a.write = true <;> simp [ha] at hx
+      · rcases hx with hx | ⟨i, _, hx⟩
+        · rw [hx]; exact hw
+        · rw [← hx]
+      · rcases hx with ⟨i, _, hx⟩
+        rw [← hx]
+    · simp only [hf, if_false, upd, h, Bool.false_eq_true]
+      refine ⟨trivial, trivial, ?_⟩
+      intro x hx
+      by_cases ha : a.write = true <;> simp [ha] at hx
+      rw [hx]; exact hw
+
 /-- per logger: both have no storage, or the ring represents the specification state -/
 def BRel (s : BSt) (t : SSt) : Prop :=
   s.flushLvl = t.flushLvl ∧
